@@ -328,7 +328,7 @@ class Seam:
 
     def __init__(self, root, order_key=None, faults=None, mounts=None,
                  clock=None, virtual_root=False, step_cap=None,
-                 read_chunks=None, stamp_writes=True, zero_size=None,
+                 read_chunks=None, stamp_writes=True, zero_size=None, size_override=None,
                  default_dev=None, hook=None, order_alias=(), patch_time=False, pool=None):
         self.root = os.path.realpath(root)
         # completion order of the loader's worker pool: 'keyed' (permuted by the run's key) or 'serial' (as shipped)
@@ -349,6 +349,7 @@ class Seam:
         self.read_chunks = read_chunks      # None | 'tiny' | 'mixed' | int
         self.stamp_writes = stamp_writes
         self.zero_size = set(zero_size or ())  # rel paths whose st_size reads 0
+        self.size_override = dict(size_override or {})   # rel path -> st_size reported by stat/fstat (file changed size since)
         self.hook = hook                    # callable(seam, n, kind, rel) after each call
         self.default_dev = default_dev
         self.order_alias = tuple(order_alias)   # replica prefixes that share one enumeration order
@@ -477,6 +478,8 @@ class Seam:
         size = None
         if rel in self.zero_size and _stat.S_ISREG(st.st_mode):
             size = 0
+        elif rel in self.size_override and _stat.S_ISREG(st.st_mode):
+            size = self.size_override[rel]
         if self.default_dev is None and size is None:
             return st
         dev = st.st_dev if self.default_dev is None else self._dev_for(realpath)
@@ -531,7 +534,7 @@ class Seam:
         except OSError as e:
             self.events[-1] = self.events[-1][:3] + ('err:' + _errno.errorcode.get(e.errno, str(e.errno)),)
             raise
-        if self.default_dev is None and not self.zero_size:
+        if self.default_dev is None and not self.zero_size and not self.size_override:
             return st
         rp = self._realpath(path) if follow_symlinks else os.path.join(
             self._realpath(os.path.dirname(os.path.abspath(path))), os.path.basename(path))
